@@ -180,20 +180,33 @@ impl Eval for Cmp {
         match self.op {
             CmpOp::Eq => cmp_dispatch(&PartialEq::eq, &context.resolve(&self.path), &self.value),
             CmpOp::NotEq => cmp_dispatch(&PartialEq::ne, &context.resolve(&self.path), &self.value),
-            CmpOp::LessThan => {
-                cmp_dispatch(&PartialOrd::lt, &context.resolve(&self.path), &self.value)
-            }
-            CmpOp::LessThanEq => {
-                cmp_dispatch(&PartialOrd::le, &context.resolve(&self.path), &self.value)
-            }
-            CmpOp::GreatThan => {
-                cmp_dispatch(&PartialOrd::gt, &context.resolve(&self.path), &self.value)
-            }
-            CmpOp::GreatThanEq => {
-                cmp_dispatch(&PartialOrd::ge, &context.resolve(&self.path), &self.value)
-            }
+            CmpOp::LessThan => cmp_dispatch(
+                &same_kind(PartialOrd::lt),
+                &context.resolve(&self.path),
+                &self.value,
+            ),
+            CmpOp::LessThanEq => cmp_dispatch(
+                &same_kind(PartialOrd::le),
+                &context.resolve(&self.path),
+                &self.value,
+            ),
+            CmpOp::GreatThan => cmp_dispatch(
+                &same_kind(PartialOrd::gt),
+                &context.resolve(&self.path),
+                &self.value,
+            ),
+            CmpOp::GreatThanEq => cmp_dispatch(
+                &same_kind(PartialOrd::ge),
+                &context.resolve(&self.path),
+                &self.value,
+            ),
         }
     }
+}
+
+/// The ordering operators only apply to values of the same kind
+fn same_kind<Cmp: Fn(&Value, &Value) -> bool>(cmp: Cmp) -> impl Fn(&Value, &Value) -> bool {
+    move |lhs, rhs| std::mem::discriminant(lhs) == std::mem::discriminant(rhs) && cmp(lhs, rhs)
 }
 
 fn cmp_dispatch<Cmp: Fn(&Value, &Value) -> bool>(cmp: &Cmp, lhs: &Value, rhs: &Value) -> bool {
